@@ -53,6 +53,13 @@ var NearMissLines = []string{
 	`for i := nmVoid(); i < 2; i++ {` + "\n}",
 	`for i := 0; nmVoid(); i++ {` + "\n}",
 	`for i := 0; i < 2; nmVoid() {` + "\n}",
+	`for a9, b9 := nmTwo(); a9 < 2; a9++ {` + "\n}",
+	`for nmI = 0; nmI < 2; nmI++ {` + "\n}",
+	`for print(1); nmB; nmI++ {` + "\n}",
+	`for nmI := 0; nmI < 2; nmI++ {` + "\n}",
+	`for i := 0; i < 2; i += nmVoid() {` + "\n}",
+	`for i := 0; i < 2; print(i) {` + "\n}",
+	`for i := 0; i < 2; j := 1 {` + "\n}",
 	`for i, v := range nmVoid() {` + "\n}",
 	`for i, v := range nmTwo() {` + "\n}",
 	`for i, v := range nmI {` + "\n}",
@@ -228,6 +235,16 @@ var NearMissLines = []string{
 	`switch {` + "\nprint(1)\n}",
 	`switch nmI {` + "\ncase 1: case 2:\n}",
 	`switch nmI {`,
+	`switch nmI {` + "\ncase 3:\nbreak\n}",
+	`switch nmI {` + "\ncase 3:\ncontinue\n}",
+	`switch nmI {` + "\ndefault:\nbreak\n}",
+	`switch {` + "\ncase nmB:\nif nmB {\nbreak\n}\n}",
+	`if nmB {` + "\nbreak\n}",
+	`if nmB {` + "\ncontinue\n}",
+	`if nmB {` + "\nreturn\n}",
+	`for nmB {` + "\nswitch nmI {\ncase 3:\nbreak\n}\nbreak\n}",
+	`for nmB {` + "\nfunc inner2() {\n}\nbreak\n}",
+	`for i := 0; i < 2; i++ {` + "\nreturn 1\n}",
 	`{`,
 	`}`,
 	`)`,
@@ -263,7 +280,20 @@ func SpliceNearMiss(r *Rng, src string) (string, string) {
 		desc += " (in func)"
 	}
 	at := len(lines)
-	if r.Chance(50) {
+	if r.Chance(30) {
+		// inside an existing block: right after a line that opens one
+		cands := []int{}
+		for i, l := range lines {
+			t := strings.TrimSpace(l)
+			if strings.HasSuffix(t, "{") || strings.HasSuffix(t, ":") {
+				cands = append(cands, i+1)
+			}
+		}
+		if len(cands) > 0 {
+			at = cands[r.Intn(len(cands))]
+			desc += " (in block)"
+		}
+	} else if r.Chance(50) {
 		// at a top-level position: after a line that closes a block or is unindented
 		cands := []int{}
 		for i, l := range lines {
